@@ -31,6 +31,9 @@ func (p *c01) Setup(env *fw.Env) error {
 }
 
 func (p *c01) Case(i int) fw.Case {
+	if i%20 == 9 {
+		return fw.Case{Kind: "late-var", P: map[string]string{"n": fmt.Sprint(p.rnd(i).Range(1, 90))}}
+	}
 	if i%5 == 4 {
 		r := p.rnd(i)
 		t := r.Intn(len(constConvTemplates))
@@ -85,6 +88,13 @@ func (p *c01) Run(c fw.Case, r *fw.Rec) {
 	g := &gen.GoGen{R: p.rnd(c.Idx)}
 	src := g.Program(g.R.Range(3, 7))
 	info := map[string]string{}
+	if c.Kind == "late-var" {
+		// a package-level variable whose initialiser names another package-level variable, first referenced in a
+		// function that has a local of that name (the initialiser is compiled on demand inside that function)
+		src = "package main\n\nimport \"fmt\"\n\nfunc main() {\n\tbase := \"s\"\n\tfmt.Println(base, total)\n}\n\nvar total = base + " + c.P["n"] + "\n\nvar base = 41\n"
+		info["probe"] = "late-package-var-initializer"
+		r.Cover("kind:late-package-var-probe")
+	}
 	if c.Kind == "constconv" {
 		var id string
 		id, src = constConvProgram(c)
